@@ -21,6 +21,11 @@ FSM_RULE = ("Real MotionProcessor fed by a scripted parser; cases: (1) ~330 conf
 FSM_ASSUME = COMMON_ASSUME + ["the driver aims at motion with a toggling hot pixel, but oracles take the observed MotionDetected callbacks as input"]
 FSM_JOB = {"pkg": "motion", "test": "TestVerif_FSM", "shards": (16, 16), "timeout": (300, 2400), "require": ["recordings", "motion_frames_observed"]}
 
+TH_RULE = ("Real ThrottledRecorder (NewThrottledRecorderWithClock, fake clock) between a scripted caller and a monitor sink. Cases: (1) seeded random schedules from (Start Write* Stop)* with 5..6000 ops, "
+           "bucket 1-60 s (and the shipped 600 s), refill 1 s..1 h, min+preview 1-20 s, fps 1-9, wrapped-start failure rate 0/10/40 %; (2) wrapped start failing at call index 0..11; "
+           "(3) schedules constructed to stay within budget; (4) composition with the real MotionProcessor.")
+TH_JOB = {"pkg": "throttle", "test": "TestVerif_Throttle", "shards": (16, 16), "timeout": (300, 2400), "require": ["forwarded_writes", "cuts", "suppressed_starts", "within_budget_schedules", "composition_runs", "schedules_with_start_failures"]}
+
 PROPS = {
     "C01": {
         "title": "Each motion recording is a gap-free, duplicate-free, in-order run of the stream",
@@ -65,6 +70,31 @@ PROPS = {
         "level_note": "Sunrise/sunset-relative windows are exercised only through Active()'s boolean; the CPTVFileRecorder disk check is covered by the pipeline job.",
         "technique": "online start-iff monitor with scripted gates and injected window clock",
         "jobs": [dict(FSM_JOB)],
+    },
+    "C05": {
+        "title": "Throttling bounds recorded frames by the token bucket in every time interval",
+        "level": "exploration",
+        "rule": TH_RULE + " Oracle C05: for every pair of forwarded writes i<=j (virtual timestamps): j-i+1 <= B + 1.01*r*(tj-ti) + 2 (O(n) running-minimum form of all pairs). "
+                "Non-trivial = schedule with at least one cut or suppressed start; distinct by (config, timestamped base trace).",
+        "assumptions": COMMON_ASSUME + ["virtual time only (injected ratelimit.Clock); tolerance = the property's 1% rate margin + 2 frames"],
+        "level_text": "Offline checker over the timestamped trace on the wrapped recorder for seeded caller schedules (idle-then-burst, churn at the refill boundary, continuous writing for several buckets, one-frame recordings, clock advances from 0/1ns/one tick +-1ns to 40 days) and for the composition real MotionProcessor -> real ThrottledRecorder under continuous and random motion; the largest observed excess over B + 1.01 r dt is reported.",
+        "level_note": "main.go's wiring of the throttle (real clock) is checked one-sidedly by the pipeline job.",
+        "technique": "offline interval-bound checker on a timestamped event log (injected clock)",
+        "jobs": [dict(TH_JOB)],
+    },
+    "C06": {
+        "title": "Throttle: transparent within budget, clean cuts, restarts only with a full clip",
+        "level": "exploration",
+        "rule": TH_RULE + " Oracle C06 (online, per caller op, with the tokens available read in-package at the same virtual instant): start forwarded unchanged iff A >= minLen else exactly one event; "
+                "write forwarded iff open and A >= 1, else one event + one Stop; restart (remembered background/threshold) iff A >= minLen; stop forwarded iff open; cut files hold >= minLen frames; "
+                "events == suppressed starts + cuts; wrapped start errors surface and leave the throttle closed; pairing automaton on the whole base trace; "
+                "constructed within-budget schedules must be forwarded verbatim with no event. Non-trivial = schedule with at least one cut or suppressed start.",
+        "assumptions": COMMON_ASSUME + ["reading bucket.Available() immediately before an operation at the same virtual instant is idempotent (the library recomputes the same value)",
+                                        "the D-Bus ThrottledEventRecorder is observable only with a bus; the listener interface is monitored instead"],
+        "level_text": "Online per-operation monitor + offline pairing automaton + derived-quantity checks over seeded schedules, with the wrapped recorder's StartRecording failing at random calls and at every call index 0..11.",
+        "level_note": "min-secs+preview-secs >= 1 (refill > 0) as the property requires.",
+        "technique": "online per-operation monitor + pairing automaton on the wrapped recorder",
+        "jobs": [dict(TH_JOB)],
     },
     "C07": {
         "title": "Motion is reported exactly per the configured thresholds (fixed threshold)",
